@@ -139,7 +139,7 @@ func (E *Engine) inlineReturn(st *State, in *ssa.Return) {
 // assumedInInline: obligation kinds that are the inlined helper's own business.
 func assumedInInline(kind string) bool {
 	switch kind {
-	case "nil", "bounds", "overflow", "typeassert", "nil-map", "make-size", "div", "shift", "conversion":
+	case "nil", "bounds", "overflow", "typeassert", "nil-map", "make-size", "make-chan-size", "div-zero", "bitop-nonneg":
 		return true
 	}
 	return false
